@@ -20,6 +20,7 @@ import (
 	"encoding/base64"
 	"encoding/hex"
 	"encoding/json"
+	"errors"
 	"fmt"
 	"io"
 	"os"
@@ -399,6 +400,7 @@ func run(f lib.Flags) {
 		encx.Inflight(c)
 		checkDoc(res, drv, real, c, rng, i)
 	}
+	checkPipes(res, drv, genPipe(f.Tier, rng.Fork()))
 	for i, c := range genInterleave(f.Tier, rng.Fork(), f.Search) {
 		checkInterleave(res, c, i)
 	}
@@ -937,6 +939,143 @@ func checkInterleave(res *lib.Result, c ilCase, idx int) {
 	}
 }
 
+// ---- io.Pipe with a scripted consumer against Kit.Enc.Pipe.consumeAll ----
+
+type pipeCase struct {
+	Kind   string   `json:"kind"` // pipe
+	Writes []string `json:"writes_hex"`
+	Closed string   `json:"closed"` // ok | err
+	Bufs   []int    `json:"bufs"`
+	Dflt   int      `json:"dflt"`
+}
+
+func (c pipeCase) line() string {
+	ws := make([]string, len(c.Writes))
+	for i, w := range c.Writes {
+		ws[i] = w
+		if w == "" {
+			ws[i] = "-"
+		}
+	}
+	bs := make([]string, len(c.Bufs))
+	for i, b := range c.Bufs {
+		bs[i] = strconv.Itoa(b)
+	}
+	return fmt.Sprintf("pipe writes=%s closed=%s bufs=%s dflt=%d", strings.Join(ws, ";"), c.Closed, strings.Join(bs, ","), c.Dflt)
+}
+
+func runPipe(c pipeCase) string {
+	var reads []string
+	term := "ok"
+	gerr := encx.Guard(20*time.Second, func() error {
+		pr, pw := io.Pipe()
+		go func() {
+			for _, w := range c.Writes {
+				b, _ := hex.DecodeString(w)
+				if _, err := pw.Write(b); err != nil {
+					return
+				}
+			}
+			if c.Closed == "ok" {
+				pw.Close()
+			} else {
+				pw.CloseWithError(encx.ErrSource)
+			}
+		}()
+		for i := 0; ; i++ {
+			sz := c.Dflt
+			if i < len(c.Bufs) {
+				sz = c.Bufs[i]
+			}
+			p := make([]byte, sz)
+			n, err := pr.Read(p)
+			if err != nil {
+				term = encx.Canon(err)
+				return nil
+			}
+			if n == 0 {
+				reads = append(reads, "-")
+			} else {
+				reads = append(reads, hex.EncodeToString(p[:n]))
+			}
+			if i > 100000 {
+				return errors.New("TIMEOUT: pipe never ends")
+			}
+		}
+	})
+	if gerr != nil {
+		return "term=" + encx.Canon(gerr)
+	}
+	return fmt.Sprintf("reads=%s term=%s", strings.Join(reads, ";"), term)
+}
+
+func genPipe(tier string, rng *lib.Rand) []pipeCase {
+	n := 1500
+	if tier == "thorough" {
+		n = 20000
+	}
+	var cases []pipeCase
+	for i := 0; i < n; i++ {
+		c := pipeCase{Kind: "pipe", Closed: []string{"ok", "err"}[rng.Intn(2)], Dflt: rng.Range(1, 9)}
+		for k := rng.Intn(5); k > 0; k-- {
+			l := rng.Intn(7)
+			if rng.Intn(6) == 0 {
+				l = 0
+			}
+			c.Writes = append(c.Writes, hex.EncodeToString(rng.Bytes(l)))
+		}
+		for k := rng.Intn(8); k > 0; k-- {
+			c.Bufs = append(c.Bufs, rng.Intn(5))
+		}
+		cases = append(cases, c)
+	}
+	return cases
+}
+
+func checkPipes(res *lib.Result, drv *lib.Drv, cases []pipeCase) {
+	var lines []string
+	for _, c := range cases {
+		lines = append(lines, c.line())
+	}
+	var answers []string
+	if drv != nil {
+		var err error
+		answers, err = drv.AskBatch(lines)
+		if err != nil {
+			res.Disagree("driver-alive", "pipe batch", err.Error(), "")
+			answers = nil
+		}
+	}
+	for i, c := range cases {
+		impl := runPipe(c)
+		res.Count(lines[i], len(c.Writes) > 0)
+		res.Hit("pipe.term=" + encx.KV(impl)["term"])
+		// monitor: the consumer receives the concatenation of the writes
+		var want, got []byte
+		for _, w := range c.Writes {
+			b, _ := hex.DecodeString(w)
+			want = append(want, b...)
+		}
+		if rs := encx.KV(impl)["reads"]; rs != "" {
+			for _, r := range strings.Split(rs, ";") {
+				if r != "-" {
+					b, _ := hex.DecodeString(r)
+					got = append(got, b...)
+				}
+			}
+		}
+		if !bytes.Equal(want, got) {
+			res.Violate("pipe-consumer-bytes", "io.Pipe consumer did not receive the concatenation of the writes", c)
+		}
+		if answers != nil {
+			res.Traces++
+			if answers[i] != impl {
+				res.Disagree("io.Pipe with a scripted consumer = Kit.Enc.Pipe.consumeAll", c, answers[i], impl)
+			}
+		}
+	}
+}
+
 func summarize(h string) string {
 	if len(h) <= 96 {
 		return h
@@ -1070,6 +1209,10 @@ func replay(f lib.Flags, res *lib.Result, drv *lib.Drv) {
 			real = err == nil && strings.Contains(a, "real=1")
 		}
 		checkDoc(res, drv, real, c, lib.NewRand(f.Seed), 0)
+	case "pipe":
+		var c pipeCase
+		json.Unmarshal(rf.Case, &c)
+		checkPipes(res, drv, []pipeCase{c})
 	case "interleave":
 		var c ilCase
 		json.Unmarshal(rf.Case, &c)
